@@ -52,6 +52,8 @@ func (s *Sender) Run(ctx context.Context) {
 				if stream == nil {
 					sink = s.Sink
 				} else {
+					// still owe the held stream its callback: do not take another one
+					sink = nil
 					streamCancel = stream.Ctx.Done()
 				}
 				select {
